@@ -504,9 +504,10 @@ class Project(MessageHandler):
                 elif end and not start:
                     task[("start", scIdx)] = end
                     task[("scheduled", scIdx)] = True
-                elif start and end:
+                elif start and end and start <= end:
                     task[("scheduled", scIdx)] = True
-                # else: milestone with no dates - let it be scheduled by the main loop
+                # else: milestone with no dates, or with an end before its start - the main
+                # loop schedules it or reports it as unschedulable
 
         # Propagate ALAP mode through dependency chains
         # If task B depends on task A, and B is ALAP with fixed end,
